@@ -4,6 +4,7 @@ import (
 	"bytes"
 	"encoding/json"
 	"fmt"
+	"math/rand/v2"
 	"reflect"
 	"strconv"
 
@@ -99,6 +100,19 @@ func showJSON(v any) string {
 	return s
 }
 
+// c16Deep nests inner depth levels down, alternating objects and arrays at random
+func c16Deep(r *rand.Rand, inner any, depth int) any {
+	cur := inner
+	for d := 0; d < depth; d++ {
+		if r.IntN(3) != 0 {
+			cur = map[string]any{"a": d, "m": cur, "n": "x", "o": nil, "p": 1.5}
+		} else {
+			cur = []any{d, cur, "y"}
+		}
+	}
+	return cur
+}
+
 func c16Case(c *core.Ctx, idx int) {
 	rec := c.Rec
 	r := c.Rand(idx)
@@ -120,6 +134,15 @@ func c16Case(c *core.Ctx, idx int) {
 		depth := 1 + r.IntN(6)
 		m, _ := vg.JSON(depth, 6).(map[string]any)
 		a, _ := vg.JSON(depth, 5).([]any)
+		if j == 11 && idx%5 == 2 {
+			// nested deeper than a machine word has bits, with keys and elements on both sides of the
+			// nested child at every level
+			dp := []int{40, 63, 64, 65, 70, 100, 130}[r.IntN(7)]
+			m = map[string]any{"first": 1, "nest": c16Deep(r, m, dp), "second": "s", "third": []any{}}
+			a = []any{c16Deep(r, a, dp), 2, "after"}
+			rec.Count("deep_values", 2)
+			rec.Max("nesting_depth", float64(dp))
+		}
 		rec.Eval(2)
 		rec.NonTrivial(core.Hash64(showJSON(m), showJSON(a)))
 		// top level
@@ -266,8 +289,8 @@ func init() {
 	core.Register(&core.Prop{
 		ID:        "C16",
 		Technique: "JSON-model round-trip monitor for the real JSON map/array codecs: top level, struct fields, skipped unknown fields, re-used non-nil targets, and Descriptor rendering parsed by encoding/json",
-		Rule: "random JSON-model trees (nil, bool, int, float64 finite, string, json.Number, []any, map[string]any; depth <= 6; empty keys and strings, zeros, nil and empty containers at every position, typed-nil containers inside interfaces) as a top-level object and array, as fields of a struct between plain fields, decoded into a struct that lacks the JSON fields, decoded into non-nil targets of another shape, and rendered through the codec's Descriptor. Equality treats nil and empty containers alike. distinct = distinct (object, array) pairs",
-		Assume: []string{"encoding/json as the parser of the rendering; map keys restricted to valid UTF-8 for the rendering comparison"},
+		Rule:      "random JSON-model trees (nil, bool, int, float64 finite, string, json.Number, []any, map[string]any; depth <= 6; empty keys and strings, zeros, nil and empty containers at every position, typed-nil containers inside interfaces) as a top-level object and array, as fields of a struct between plain fields, decoded into a struct that lacks the JSON fields, decoded into non-nil targets of another shape, and rendered through the codec's Descriptor. Equality treats nil and empty containers alike. distinct = distinct (object, array) pairs",
+		Assume:    []string{"encoding/json as the parser of the rendering; map keys restricted to valid UTF-8 for the rendering comparison"},
 		Plan: func(tier string) []core.Lane {
 			if tier == "thorough" {
 				return []core.Lane{{Lane: "plain", Cases: 1800000, Shards: 16, TimeoutS: 3600}}
